@@ -9,7 +9,8 @@ vars == <<v, cut, act>>
 S(n, id) == [n |-> n, id |-> id, s |-> ""]
 Str(n) == [k |-> "str", s |-> S(n, IF n = 0 THEN 0 ELSE 1)]
 LeafS == { [k |-> "num", id |-> 1], [k |-> "bool", b |-> TRUE], Str(2), [k |-> "null"] }
-Leaf == LeafS \cup { [k |-> "num", id |-> 0], [k |-> "num", id |-> 2], [k |-> "bool", b |-> FALSE],
+\* (numbers are pool indices: 6 = negative zero, 8 = a NaN with a payload - they come back bit for bit)
+Leaf == LeafS \cup { [k |-> "num", id |-> 0], [k |-> "num", id |-> 2], [k |-> "num", id |-> 6], [k |-> "num", id |-> 8], [k |-> "bool", b |-> FALSE],
                      [k |-> "undef"], [k |-> "unk", m |-> 11], [k |-> "unk", m |-> 13] }
              \cup { Str(n) : n \in StrLens }
              \cup { [k |-> "lstr", decl |-> d, s |-> S(8, 1)] : d \in {-1, -2, -3, -4, -5, 2147483647} }
